@@ -39,9 +39,10 @@ Section WithOracle.
      validated and atomic.  Mirrors the branches of [setattr] up to the store:
        - nothing is stored (immutable class, non-field, ignored None, validation raises, immutable field
          already set): safe;
-       - a normal form nf is stored: it must be valid per the declaration (C01's concern: the stored
-         normal form is itself a documented value) and the class's __validate__ hook must accept the
-         new state, because Field.__set__ stores BEFORE it runs the hook and nothing rolls back. *)
+       - a normal form nf is stored and the class's __validate__ hook rejects the new state:
+         Structure.__setattr__ puts the previous entry back and re-raises: safe;
+       - a normal form nf is stored and stays: it must be valid per the declaration (C01's concern: the
+         stored normal form is itself a documented value). *)
   Definition assign_safe (c : classdef) (a : attrs) (n : pystr) (v : pyval) : bool :=
     c_immutable c ||
     match find_field (c_fields c) n with
@@ -52,7 +53,8 @@ Section WithOracle.
         | Raise _ => true
         | Ok nf =>
             (fd_immutable fd && alist_has a n) ||
-            (is_some (docb re_match e (fd_field fd) nf) && hook_ok (c_hook c) (alist_set a n nf))
+            negb (hook_ok (c_hook c) (alist_set a n nf)) ||
+            is_some (docb re_match e (fd_field fd) nf)
         end
     end.
 
@@ -60,8 +62,8 @@ Section WithOracle.
     match op with
     | SetAttr n v => assign_safe c a n v
     | DelItem n =>
-        (* Structure.__delitem__ does not run __validate__ *)
-        is_required c n || negb (alist_has a n) || hook_ok (c_hook c) (alist_del a n)
+        (* Structure.__delitem__ runs __validate__ on the result and puts the entry back when it raises *)
+        true
     | WrapMut n s base =>
         match s with
         | CopyMutateReassign guard =>
@@ -82,7 +84,7 @@ Section WithOracle.
   Definition value_safe (c : classdef) (a : attrs) (op : mop) : bool :=
     match op with
     | SetAttr n v => assign_safe c a n v
-    | DelItem n => is_required c n || negb (alist_has a n) || hook_ok (c_hook c) (alist_del a n)
+    | DelItem n => true
     | WrapMut n s base =>
         match s with
         | CopyMutateReassign guard =>
@@ -145,7 +147,7 @@ Definition w_state : attrs :=
 Definition w_op (s : shape) : mop :=
   WrapMut (s2p "a") s (Ok (PList [PNum (NInt 1); PStr (s2p "x")])).
 
-(* hook failure after the store: x.i = 9 with __validate__ requiring i <= j (= 5) *)
+(* the hook rejects the stored value: x.i = 9 with __validate__ requiring i <= j (= 5) *)
 Definition w_hook : hook := HookLe (s2p "i") (s2p "j").
 Definition w_hook_op : mop := SetAttr (s2p "i") (PNum (NInt 9)).
 
